@@ -107,7 +107,7 @@ fn race_round(w: &mut World) -> Result<(), String> {
     for &r in &racers {
         let detached = w.rng.chance(1, 3);
         let before = w.g(r).clone();
-        w.out.cov.eval(Some(fnv(format!("build|{detached}|{encrypted}|{}", before.has_pending_commit()).as_bytes())));
+        w.out.cov.eval(Some(fnv(format!("build|{detached}|{encrypted}|{}|{}|{}|{}|{}", before.has_pending_commit(), racers.len(), act.len().min(8), before.get_cached_proposals().len().min(3), w.cfg.suite).as_bytes())));
         // the model: no pending commit yet in this epoch
         let res = {
             let g = w.gm(r);
@@ -280,7 +280,7 @@ fn resolve(w: &mut World, gs: &mut Vec<(usize, VGroup)>, built: &[Built], wi: us
     for (i, g) in gs.iter_mut() {
         let is_winner = *i == winner.who;
         let racer = built.iter().find(|b| b.who == *i);
-        w.out.cov.eval(Some(fnv(format!("resolve|{is_winner}|{}|{}|{mode}", racer.is_some(), racer.map(|r| r.secrets.is_some()).unwrap_or(false)).as_bytes())));
+        w.out.cov.eval(Some(fnv(format!("resolve|{is_winner}|{}|{}|{mode}|{}|{}", racer.is_some(), racer.map(|r| r.secrets.is_some()).unwrap_or(false), built.len(), w.cfg.suite).as_bytes())));
         if is_winner {
             let res = if let Some(s) = &winner.secrets {
                 let s = s.clone();
